@@ -318,6 +318,16 @@ type c03Run struct {
 	mu     sync.Mutex
 	deaths int
 	ranks  map[string]int // thread cases: generation order (simplest first)
+	// switch-err stream: children killed for memory (only against a tree in which the loops of
+	// parseSwitch spin again); the first three are exhibited, the rest of the stream is dropped
+	switchErrDeaths int
+}
+
+func (c *c03Run) switchErrDied(add int) int {
+	c.mu.Lock()
+	defer c.mu.Unlock()
+	c.switchErrDeaths += add
+	return c.switchErrDeaths
 }
 
 var c03Directed = []struct{ name, src string }{
@@ -354,6 +364,9 @@ var c03Directed = []struct{ name, src string }{
 	{"case-list-error", "switch 5 {\ncase go 0, 10:\n  1\n}"},
 	{"case-case", "switch 1 {\ncase case:\n}"},
 	{"case-list-ok", "switch 5 {\ncase 0, 10:\n  1\n}"},
+	{"case-list-error-2", "switch 5 {\ncase 1, go 0, 10:\n  1\n}"},
+	{"case-default", "switch 1 {\ncase 1:\ncase default:\n}"},
+	{"case-lex-error", "switch 1 {\ncase 1, \"abc\n, 2:\n}"},
 }
 
 func (c *c03Run) key(stream, src string) string { return stream + "|" + strconv.Quote(src) }
@@ -411,6 +424,10 @@ func (c *c03Run) death(key string, d *c03Death, finding string) {
 func (c *c03Run) judgeSrc(stream, src string, res c03Result) {
 	e := c.e
 	key := c.key(stream, src)
+	if res.Death != nil && stream == "switch-err" && c.switchErrDied(1) > 3 {
+		e.R.H("excluded", "switch-err: child died; the first three deaths of this stream are exhibited")
+		return
+	}
 	if res.Death != nil && (res.Death.Kind == "memlimit" || res.Death.Kind == "timeout") && !strings.HasSuffix(stream, "/front") {
 		// A script may legitimately run out of memory or time; the front end on a small
 		// source may not.  Re-run lexer + parser + compiler alone in a fresh child.
@@ -423,11 +440,11 @@ func (c *c03Run) judgeSrc(stream, src string, res c03Result) {
 		e.R.Case(key, true)
 		e.R.H("stream:"+stream, "child-died")
 		if strings.HasSuffix(stream, "/front") && res.Death.Kind == "memlimit" && len(src) < 100000 {
-			finding := ""
-			if c03SwitchCaseGuard(src) {
-				finding = "C03-switch-error-loop"
-			}
-			e.R.Spec(key, fmt.Sprintf("lexer+parser+compiler alone exhaust memory (> 1.2 GB) on a %d-byte source: the process is killed by the Go runtime (out of memory)", len(src)), finding)
+			// no finding is attributed: since the repair of C03-switch-error-loop the model
+			// (caseLoop_terminates / switchLoop_terminates) says that the loops of parseSwitch
+			// end on every token stream, and no other parser loop drops nextToken's result
+			// unreviewed (Ties: parser_advance_loops_reviewed)
+			e.R.Spec(key, fmt.Sprintf("lexer+parser+compiler alone exhaust memory (> 1.2 GB) on a %d-byte source: the process is killed by the Go runtime (out of memory)", len(src)), "")
 			return
 		}
 		c.death(key, res.Death, "")
@@ -522,6 +539,13 @@ func (c *c03Run) judgeSrc(stream, src string, res c03Result) {
 	}
 
 	// ---- 2. Spec on the API results
+	if stream == "switch-err" {
+		e.R.H("switch_err", "parse="+r.Parse)
+		if r.Parse == "ok" {
+			e.R.Mismatch(key, "parser.Parse returned no error", "parse error",
+				"a syntax error planted in the head of a case must end parseSwitch with the recorded error (caseLoop_error_stops / switchLoop_error_stops)")
+		}
+	}
 	if r.Parse == "panic" {
 		e.R.Spec(key, "parser.Parse panicked: "+r.ParseMsg, "")
 	}
@@ -596,32 +620,48 @@ func (c *c03Run) threadedSrc(stream, src string) {
 	}
 }
 
-// c03SwitchCaseGuard: the source contains a `switch` and, after it, a `case` keyword — the
-// loops of parseSwitch are the only ones in the parser that keep running once p.err is set
-// (guard of C03-switch-error-loop; the death itself must be an out-of-memory abort of the
-// front end alone).
-func c03SwitchCaseGuard(src string) (hit bool) {
-	defer func() { recover() }()
-	l := lexer.New(src)
-	inSwitch := false
-	for i := 0; i < 100000; i++ {
-		t, err := l.Next()
-		if t.Type == token.EOF {
-			return
+// ---- switch statements with a syntax error planted in the head of one case
+//
+// Parser.nextToken stops advancing once p.err is set; the loops of parseSwitch (the comma loop
+// of a case list, the outer loop over the cases) must end there with the recorded error
+// (Lean: caseLoop_error_stops / switchLoop_error_stops).  Until the repair of
+// C03-switch-error-loop they did not: such a source made parser.Parse allocate until the Go
+// runtime aborted the process.  Every source of this stream must come back as a parse error.
+
+var c03BadCaseExprs = []string{"go 0", "case", "default", ")", "1 +", "@", "defer x", "}", "]", "\"unterminated",
+	"'{1 +}'", "0x", "1 not 2", "func(", "!", "switch", "if", "x.", "[1,", "{1:", "1 ? 2", "<-", "import"}
+var c03GoodCaseExprs = []string{"0", "10", "x", "\"s\"", "[1, 2]", "len(x)", "1 + 2", "(3)", "nil", "true", "x.y", "-1"}
+
+func c03SwitchErr(r *RNG) string {
+	var sb strings.Builder
+	sb.WriteString(Pick(r, []string{"switch 5 {\n", "x := 1\nswitch x {\n", "switch (x) { ", "func f(x) {\n switch x {\n", "switch 1 {\n\n"}))
+	nCases := 1 + r.Intn(3)
+	bad := r.Intn(nCases)
+	for i := 0; i < nCases; i++ {
+		if i != bad && r.Chance(15) {
+			sb.WriteString(Pick(r, []string{"default:\n 0\n", "default:\n", "default: 1\n"}))
+			continue
 		}
-		if err != nil {
-			return
+		n := 1 + r.Intn(4)
+		badAt := -1
+		if i == bad {
+			badAt = r.Intn(n)
 		}
-		switch t.Type {
-		case token.SWITCH:
-			inSwitch = true
-		case token.CASE:
-			if inSwitch {
-				return true
+		sb.WriteString("case ")
+		for j := 0; j < n; j++ {
+			if j > 0 {
+				sb.WriteString(Pick(r, []string{", ", ",", " , "}))
+			}
+			if j == badAt {
+				sb.WriteString(Pick(r, c03BadCaseExprs))
+			} else {
+				sb.WriteString(Pick(r, c03GoodCaseExprs))
 			}
 		}
+		sb.WriteString(Pick(r, []string{":\n", ":", ": 1\n", ":\n  1\n  2\n", ":\n\n", ":\ncase 2:\n", " "}))
 	}
-	return
+	sb.WriteString(Pick(r, []string{"}", "}\n", "", "}\n}", "\n}\n1"}))
+	return sb.String()
 }
 
 // a panic escaping Eval after Parse and Compile succeeded separately can only come from the
@@ -1281,7 +1321,8 @@ func (c *c03Run) deepCases() {
 func c03_runC03(e *Env) {
 	e.R.Rule = "inputs: (1) programs from the structured generator, (2) one token deleted / inserted / substituted / truncated after, using the real lexer's " +
 		"token boundaries, (3) token soup from an alphabet of every keyword, operator, literal form, comment form, unterminated and multi-line token, " +
-		"(4) raw bytes (uniform, printable, punctuation-heavy incl. NUL and invalid UTF-8), (5) directed sources for each known defect; each goes through " +
+		"(4) raw bytes (uniform, printable, punctuation-heavy incl. NUL and invalid UTF-8), (5) directed sources for each known or repaired defect, " +
+		"(6) switch statements with a syntax error planted in one expression of one case list (each must come back as a parse error: the loops of parseSwitch end once an error is recorded); each goes through " +
 		"lexer (every token: positions, GetLineText, FriendlyErrorMessage), parser.Parse, Error()/FriendlyErrorMessage() of the returned error, AST export, " +
 		"compiler.Compile, risor.Eval inside a child process. Plus scripts over the default globals applied to cyclic / 1e5-deep / plain containers, " +
 		"generated heaps for Inspect and Equals, VM depth thresholds through Eval / Call / EvalCode, and very deep nesting. " +
@@ -1294,8 +1335,10 @@ func c03_runC03(e *Env) {
 	c := &c03Run{e: e}
 	workers := 4
 	nValid, nMut, nSoup, nBytes, nHeap, nScript := 2500, 6000, 7000, 3500, 1500, 400
+	nSwitchErr := 600
 	if !e.Quick {
 		nValid, nMut, nSoup, nBytes, nHeap, nScript = 30000, 160000, 200000, 80000, 15000, 0
+		nSwitchErr = 20000
 		workers = 6
 	}
 	c.pool = c03_newC03Pool(workers)
@@ -1341,6 +1384,14 @@ func c03_runC03(e *Env) {
 	}
 	for i := 0; i < nBytes; i++ {
 		c.srcCase("bytes", c03Bytes(rng.Fork()))
+	}
+	for i := 0; i < nSwitchErr; i++ {
+		src := c03SwitchErr(rng.Fork())
+		if c.switchErrDied(0) >= 3 {
+			e.R.Note("switch-err: stream cut short after %d cases (three children died)", i)
+			break
+		}
+		c.srcCase("switch-err", src)
 	}
 	// the stored fuzz corpus of parser.FuzzParse and every script in the repository
 	if !e.Quick {
